@@ -338,11 +338,12 @@ class SyncThread:
 
 
 class World:
-    def __init__(self):
+    def __init__(self, two_mds=False):
         lb = _lb()
         lb.quiet()
         self.lb = lb
-        self.provider = lb.Provider()
+        self.two_mds = two_mds
+        self.provider = lb.Provider(mdib_path=lb.MDIB_2) if two_mds else lb.Provider()
         # the role providers' periodic job (AlertSystem self check) commits transactions of its own in a worker thread:
         # stop it, every transaction of a history is made by the generator
         for product in self.provider.device.product_lookup.values():
@@ -457,8 +458,31 @@ class TxGen:
             sel = list(last)
         else:
             sel = self.rng.sample(candidates, min(len(candidates), n))
+        if len(sel) >= 2 and self.rng.random() < 0.7:
+            sel = self._interleave_mds(sel, candidates)
         self.w.last_sel[kind] = list(sel)
         return sel
+
+    def _interleave_mds(self, sel, candidates):
+        """MDIB with several MDS: order (and if possible extend) the selection such that the states of one transaction
+        alternate between the MDS (mds A, mds B, mds A): the reports group the states by their source MDS"""
+        def src(h):
+            d = self.mdib.descriptions.handle.get_one(h, allow_none=True)
+            if d is None:       # handle of a context state
+                st = self.mdib.context_states.handle.get_one(h)
+                d = self.mdib.descriptions.handle.get_one(st.DescriptorHandle)
+            return d.source_mds or d.Handle
+        groups = {}
+        for h in candidates:
+            groups.setdefault(src(h), []).append(h)
+        if len(groups) < 2:
+            return sel
+        keys = sorted(groups, key=lambda k: -len(groups[k]))
+        a, b = groups[keys[0]], groups[keys[1]]
+        if len(a) < 2:
+            return sel
+        first, last = self.rng.sample(a, 2)
+        return [first, self.rng.choice(b), last]
 
     def _new_handle(self, prefix):
         self.w.counter += 1
@@ -631,6 +655,19 @@ class TxGen:
         which, dh = self._ctx_descr()
         if dh is None:
             return self.tx_metric()
+        if self.rng.random() < 0.4:
+            # entity interface: the context entity written through a descriptor transaction with one more state
+            # (in the EpisodicContextReport the new state follows the existing ones)
+            ent = self.mdib.entities.by_handle(dh)
+            ent.descriptor.SafetyClassification = self.rng.choice(list(self.pm_types.SafetyClassification))
+            st = ent.new_state(self._new_handle('ctxe'))
+            if which == 'pat':
+                st.CoreData.Givenname = 'Entity'
+            else:
+                st.LocationDetail.Bed = 'entitybed'
+            with self.mdib.descriptor_transaction() as tr:
+                tr.write_entity(ent)
+            return f'descr update context {which} write_entity + new state ({len(ent.states) - 1} existing)'
         with self.mdib.descriptor_transaction() as tr:
             d = tr.get_descriptor(dh)
             d.SafetyClassification = self.rng.choice(list(self.pm_types.SafetyClassification))
@@ -667,9 +704,32 @@ class TxGen:
         vmds = _handles(self.mdib, lambda d: d.NODETYPE.localname == 'VmdDescriptor')
         recreate = [x for x in self.w.deleted if x[1] in channels + vmds and
                     self.mdib.descriptions.handle.get_one(x[0], allow_none=True) is None]
-        mode = self.rng.choice(['metric', 'metric', 'channel+metric', 'recreate' if recreate else 'metric'])
+        mode = self.rng.choice(['metric', 'siblings', 'entity-siblings', 'channel+metric', 'recreate' if recreate else 'metric'])
+        if mode == 'entity-siblings':
+            # several children of one existing parent in one transaction, entity interface
+            parent = self.rng.choice(channels)
+            ents = []
+            for _ in range(self.rng.choice([2, 3])):
+                h = self._new_handle('m')
+                ent = self.mdib.entities.new_entity(self.pm.NumericMetricDescriptor, h, parent)
+                ent.descriptor.Type = self.pm_types.CodedValue(str(self.rng.randint(10000, 99999)))
+                ent.descriptor.Unit = self.pm_types.CodedValue('u' + str(self.rng.randint(1, 9)))
+                ent.descriptor.Resolution = Decimal('0.42')
+                ents.append(ent)
+                self.w.created.append((h, parent, 'metric'))
+            with self.mdib.descriptor_transaction() as tr:
+                tr.write_entities(ents)
+            return f'descr create {mode} {len(ents)}'
         with self.mdib.descriptor_transaction() as tr:
-            if mode == 'metric':
+            if mode == 'siblings':
+                # several children of one existing parent in one transaction (the parent is bumped and reported once)
+                parent = self.rng.choice(channels)
+                for _ in range(self.rng.choice([2, 3])):
+                    h = self._new_handle('m')
+                    nd, st = self._mk_metric(h, parent)
+                    tr.add_descriptor(nd, state_container=st)
+                    self.w.created.append((h, parent, 'metric'))
+            elif mode == 'metric':
                 h = self._new_handle('m')
                 nd, st = self._mk_metric(h, self.rng.choice(channels))
                 tr.add_descriptor(nd, state_container=st)
@@ -697,6 +757,22 @@ class TxGen:
         if not alive:
             return self.tx_descr_create()
         h, parent, kind = self.rng.choice(alive)
+        siblings = [x for x in alive if x[1] == parent and x[2] == 'metric' and x[0] != h]
+        if kind == 'metric' and siblings and self.rng.random() < 0.6:
+            # several children of one parent removed in one transaction (classic or entity interface)
+            victims = [h] + [x[0] for x in self.rng.sample(siblings, self.rng.randint(1, min(2, len(siblings))))]
+            entity_api = self.rng.random() < 0.5
+            with self.mdib.descriptor_transaction() as tr:
+                for v in victims:
+                    if entity_api:
+                        tr.remove_entity(self.mdib.entities.by_handle(v))
+                    else:
+                        tr.remove_descriptor(v)
+            for x in list(self.w.created):
+                if x[0] in victims:
+                    self.w.created.remove(x)
+                    self.w.deleted.append(x)
+            return f'descr delete siblings ({len(victims)})'
         sub = [d.Handle for d in self.mdib.get_all_descriptors_in_subtree(self.mdib.descriptions.handle.get_one(h))]
         with self.mdib.descriptor_transaction() as tr:
             tr.remove_descriptor(h)
@@ -1746,6 +1822,11 @@ def _resolve(name):
     return getattr(importlib.import_module(mod), fn)
 
 
+def two_mds_chunk(chunk):
+    """every third chunk of histories runs on the MDIB with two MDS (tests/mdib_two_mds.xml)"""
+    return chunk % 3 == 2
+
+
 def run_chunk(ctx, world, key, chunk, n_hist, n_sched, n_tx=(4, 12), mirror_oracle=True, sched_gen='props.c06:gen_schedule',
               only=None, describe=False, notif_oracle=False):
     """histories chunk*CHUNK .. on `world` (which must be fresh); `only=(hi, schedule)` = replay of one recorded case"""
@@ -1806,7 +1887,7 @@ def _chunk_worker(args):
     logging.disable(logging.CRITICAL)
     ctx = core.Ctx(prop, tier, seed)
     try:
-        world = World()
+        world = World(two_mds=two_mds_chunk(kw['chunk']))
         try:
             res = run_chunk(ctx, world, **kw)
         finally:
@@ -2178,16 +2259,126 @@ def scenario_context_clear_by_descriptor_tx(world, rng):
     return rec.hist, [('reload', 0, 0, [])] + [('deliver', i) for i in w]
 
 
-SCENARIOS = (scenario_ctx_answer_newer, scenario_lost_child_delete, scenario_empty_transactions, scenario_same_handles_twice,
+def scenario_siblings_one_parent(world, rng):
+    """several children of one untouched parent created / removed in ONE transaction, classic and entity interface: the
+    parent's DescriptorVersion grows by one per transaction and is reported once"""
+    gen = TxGen(world, rng)
+    rec = HistoryRecorder(world)
+    mdib = world.mdib
+    ch = _first(mdib, 'ChannelDescriptor')
+    hs = [gen._new_handle('scn_sib') for _ in range(5)]  # noqa: SLF001
+
+    def create_classic():
+        with mdib.descriptor_transaction() as tr:
+            for h in hs[:3]:
+                tr.add_descriptor(*_args(gen._mk_metric(h, ch)))  # noqa: SLF001
+        return 'descr create siblings 3'
+
+    def create_entities():
+        ents = []
+        for h in hs[3:]:
+            ent = mdib.entities.new_entity(gen.pm.NumericMetricDescriptor, h, ch)
+            ent.descriptor.Type = gen.pm_types.CodedValue('4711')
+            ent.descriptor.Unit = gen.pm_types.CodedValue('u1')
+            ent.descriptor.Resolution = Decimal('0.5')
+            ents.append(ent)
+        with mdib.descriptor_transaction() as tr:
+            tr.write_entities(ents)
+        return 'descr create entity-siblings 2'
+
+    def delete(handles, entity_api):
+        def fn():
+            with mdib.descriptor_transaction() as tr:
+                for h in handles:
+                    if entity_api:
+                        tr.remove_entity(mdib.entities.by_handle(h))
+                    else:
+                        tr.remove_descriptor(h)
+            return f'descr delete siblings ({len(handles)})'
+        return fn
+    w = rec.tx(create_classic) + rec.tx(gen.tx_metric) + rec.tx(create_entities) + rec.tx(delete(hs[:2], False)) + \
+        rec.tx(gen.tx_component) + rec.tx(delete(hs[2:4], True)) + rec.tx(gen.tx_metric)
+    return rec.hist, [('reload', 0, 0, [])] + [('deliver', i) for i in w]
+
+
+def scenario_context_entity_new_state(world, rng):
+    """a context entity that already has states is written through a descriptor transaction with one more state: in the
+    EpisodicContextReport the new state follows states that were already applied with the description report"""
+    gen = TxGen(world, rng)
+    rec = HistoryRecorder(world)
+    mdib = world.mdib
+    pat = _first(mdib, 'PatientContextDescriptor')
+
+    def new_state():
+        with mdib.context_state_transaction() as tr:
+            st = tr.mk_context_state(pat, gen._new_handle('scn_ent'), set_associated=False)  # noqa: SLF001
+            st.CoreData.Givenname = 'existing'
+        return 'context new pat'
+
+    def write_entity_new_state():
+        ent = mdib.entities.by_handle(pat)
+        st = ent.new_state(gen._new_handle('scn_ent'))  # noqa: SLF001
+        st.CoreData.Givenname = 'added'
+        with mdib.descriptor_transaction() as tr:
+            tr.write_entity(ent)
+        return 'descr update context pat write_entity + new state'
+    w = rec.tx(new_state) + rec.tx(new_state) + rec.tx(write_entity_new_state) + rec.tx(gen.tx_metric) + \
+        rec.tx(write_entity_new_state) + rec.tx(gen.tx_context_update)
+    return rec.hist, [('reload', 0, 0, [])] + [('deliver', i) for i in w]
+
+
+def scenario_two_mds_interleaved(world, rng):
+    """MDIB with two MDS: one transaction changes states of MDS A, MDS B, MDS A (in this order); the reports carry one
+    part per source MDS and must contain every state"""
+    gen = TxGen(world, rng)
+    rec = HistoryRecorder(world)
+    mdib = world.mdib
+
+    def by_mds(pred):
+        g = {}
+        for d in sorted(mdib.descriptions.objects, key=lambda d: d.Handle):
+            if pred(d):
+                g.setdefault(d.source_mds or d.Handle, []).append(d.Handle)
+        keys = sorted(g, key=lambda k: -len(g[k]))
+        return [g[keys[0]][0], g[keys[1]][0], g[keys[0]][1]]
+
+    def metric():
+        with mdib.metric_state_transaction() as tr:
+            for i, h in enumerate(by_mds(lambda d: d.NODETYPE.localname == 'NumericMetricDescriptor')):
+                st = tr.get_state(h)
+                if st.MetricValue is None:
+                    st.mk_metric_value()
+                st.MetricValue.Value = Decimal(10 + i)
+        return 'metric 3'
+
+    def alert():
+        with mdib.alert_state_transaction() as tr:
+            for h in by_mds(lambda d: d.NODETYPE.localname == 'AlertConditionDescriptor'):
+                st = tr.get_state(h)
+                st.Presence = not st.Presence
+        return 'alert 3'
+
+    def component():
+        with mdib.component_state_transaction() as tr:
+            for i, h in enumerate(by_mds(lambda d: d.NODETYPE.localname in ('ChannelDescriptor', 'VmdDescriptor'))):
+                tr.get_state(h).OperatingHours = 100 + i
+        return 'component 3'
+    w = rec.tx(metric) + rec.tx(alert) + rec.tx(component) + rec.tx(metric)
+    return rec.hist, [('reload', 0, 0, [])] + [('deliver', i) for i in w]
+
+
+SCENARIOS_TWO_MDS = (scenario_two_mds_interleaved,)
+
+SCENARIOS = (scenario_ctx_answer_newer, scenario_siblings_one_parent, scenario_context_entity_new_state, scenario_lost_child_delete, scenario_empty_transactions, scenario_same_handles_twice,
              scenario_context_clear_by_descriptor_tx, scenario_buffer_race, scenario_commit_during_getmdib, scenario_duplicates_announce_nothing, scenario_context_delete_heals, scenario_dup_create, scenario_alert_source, scenario_inflight_same_version,
              scenario_context_keys, scenario_orphan_state)
 
 
 def run_scenarios(ctx, world, mirror_oracle=True, notif_oracle=False):
     cases = []
-    for fn in SCENARIOS:
+    for fn in (SCENARIOS_TWO_MDS if world.two_mds else SCENARIOS):
         hist, sched = fn(world, ctx.subrng('scenario', fn.__name__))
-        case = {'scenario': fn.__name__, 'schedule': [list(e) for e in sched]}
+        case = {'scenario': fn.__name__, 'two_mds': world.two_mds, 'schedule': [list(e) for e in sched]}
 
         def fail(sig, detail, _case=case, _hist=hist):
             ctx.fail(sig, detail, {**_case, 'txs': _hist.txs})
@@ -2203,11 +2394,13 @@ def _scenario_worker(args):
     logging.disable(logging.CRITICAL)
     ctx = core.Ctx(prop, tier, seed)
     try:
-        world = World()
-        try:
-            res = run_scenarios(ctx, world, mirror, notif_oracle=(prop == 'C01'))
-        finally:
-            world.stop()
+        res = []
+        for two_mds in (False, True):
+            world = World(two_mds=two_mds)
+            try:
+                res += run_scenarios(ctx, world, mirror, notif_oracle=(prop == 'C01'))
+            finally:
+                world.stop()
         err = None
     except Exception:  # noqa: BLE001
         res, err = [], traceback.format_exc()[-3000:]
@@ -2253,7 +2446,7 @@ def search(ctx):
 def replay(ctx, obj):
     case = obj['case']
     sub = core.Ctx(ctx.prop, case.get('tier', ctx.tier), case.get('seed', ctx.seed))
-    world = World()
+    world = World(two_mds=case.get('two_mds', False) if 'scenario' in case else two_mds_chunk(case['history'] // CHUNK))
     try:
         if 'scenario' in case:
             run_scenarios(sub, world, True, notif_oracle=(ctx.prop == 'C01'))
